@@ -103,6 +103,15 @@ func ParseWriteMultipleRegistersRequestTCP(data []byte) (*WriteMultipleRegisters
 		tmpErr.Packet.Function = FunctionWriteMultipleRegisters
 		return nil, tmpErr
 	}
+	if len(data) < 13 {
+		// length in header matches the data but packet is too short for this function. NB: slicing data beyond
+		// its length would silently read stale bytes from the spare capacity of the underlying buffer
+		tmpErr := NewErrorParseTCP(ErrIllegalDataValue, "received data length too short to be valid packet")
+		tmpErr.Packet.TransactionID = header.TransactionID
+		tmpErr.Packet.UnitID = unitID
+		tmpErr.Packet.Function = FunctionWriteMultipleRegisters
+		return nil, tmpErr
+	}
 	registerCount := binary.BigEndian.Uint16(data[10:12])
 	if !(registerCount >= 1 && registerCount <= 123) { // 0x0001 to 0x7B
 		tmpErr := NewErrorParseTCP(ErrIllegalDataValue, "invalid register count. valid range 1..123")
